@@ -489,7 +489,7 @@ func genSplitVotes(t *rapid.T, sp *gSplit, w []uint64) [][2]int {
 		total += x
 	}
 	f := (total - 1) / 3
-	prof := rapid.SampledFrom([][4]int{{7, 2, 1, 0}, {6, 2, 1, 1}, {5, 3, 1, 1}, {8, 1, 1, 0}, {6, 3, 0, 1}}).Draw(t, "profile")
+	prof := rapid.SampledFrom([][4]int{{8, 2, 0, 0}, {7, 2, 1, 0}, {6, 2, 1, 1}, {9, 1, 0, 0}, {8, 1, 1, 0}, {6, 3, 0, 1}}).Draw(t, "profile")
 	var cats []int
 	for c, k := range prof {
 		for i := 0; i < k; i++ {
